@@ -769,4 +769,201 @@ example : closedFrac 2 (fun _ => (2 : ℚ)) (fun _ => 1) (some fun _ => 3) 4 4 1
 example : matrixRows 1 (fun _ => (2 : ℚ)) (fun _ => 3) (some fun _ => 5) 4 8 = [[-8, 52], [8, -52], [1, 1]] := by
   decide +kernel
 
+/-! ## Round 6 — the public array-level entry points (`callFractional`, `callFromDensity`): normalisation ladder + loop -/
+
+/-- the shape test of `_parameters_to_numpy` (`all(shapes[0] == shape for shape in shapes)`), exactly -/
+theorem toArrays_eq_some_iff (ps : List (Option (Arr α))) (sh : List ℕ) (ds : List (List α)) :
+    toArrays ps = some (sh, ds) ↔
+      ∃ (a : Arr α) (rest : List (Arr α)), ps = (a :: rest).map some ∧ a.shape = sh ∧ (∀ b ∈ rest, b.shape = sh) ∧
+        ds = (a :: rest).map (·.data) := by
+  constructor
+  · intro h
+    match ps, h with
+    | some a :: rest, h =>
+      simp only [toArrays] at h
+      split_ifs at h with hall
+      simp only [Option.some.injEq, Prod.mk.injEq] at h
+      obtain ⟨h1, h2⟩ := h
+      rw [List.all_eq_true] at hall
+      have hsome : ∀ p ∈ rest, ∃ b : Arr α, p = some b ∧ b.shape = a.shape := by
+        intro p hp
+        have := hall p hp
+        cases p with
+        | none => simp at this
+        | some b => exact ⟨b, rfl, by simpa using this⟩
+      refine ⟨a, rest.filterMap id, ?_, h1, ?_, ?_⟩
+      · simp only [List.map_cons, List.cons.injEq, true_and]
+        clear h2 hall
+        induction rest with
+        | nil => rfl
+        | cons p r ih =>
+          obtain ⟨b, rfl, -⟩ := hsome _ (List.mem_cons_self)
+          simp only [List.filterMap_cons, id, List.map_cons, List.cons.injEq, true_and]
+          exact ih (fun q hq => hsome q (List.mem_cons_of_mem _ hq))
+      · intro b hb
+        rw [List.mem_filterMap] at hb
+        obtain ⟨p, hp, hpb⟩ := hb
+        obtain ⟨b', rfl, hb'⟩ := hsome p hp
+        simp only [id, Option.some.injEq] at hpb
+        rw [← hpb, hb', h1]
+      · rw [← h2]
+        simp only [List.map_cons, List.cons.injEq, true_and]
+        clear h2 hall
+        induction rest with
+        | nil => rfl
+        | cons p r ih =>
+          obtain ⟨b, rfl, -⟩ := hsome _ (List.mem_cons_self)
+          simp only [List.filterMap_cons, id, List.map_cons, List.cons.injEq, true_and]
+          exact ih (fun q hq => hsome q (List.mem_cons_of_mem _ hq))
+  · rintro ⟨a, rest, rfl, ha, hrest, rfl⟩
+    simp only [List.map_cons, toArrays]
+    simp [List.map_map, Function.comp_def, ha]
+    exact hrest
+
+/-! ### the array-level entry points: every accepted representation of the same values gives the same result -/
+
+/-- **call_representation_independent**: `fractional_abundance` depends on its inputs only through what the normalisation
+ladder makes of them -/
+theorem call_representation_independent (fl : Flags) (solve : Solver α) (Z : ℕ) (S A C : α → α → ℕ → α) (donor : Bool)
+    (fv fv' : FreeVar α) (pne pne' pte pte' : Profile α) (pd pd' : Option (Profile α))
+    (hn : toArray fv pne = toArray fv' pne') (ht : toArray fv pte = toArray fv' pte')
+    (hd : assignDonor fv pne pd = assignDonor fv' pne' pd') :
+    callFractional fl solve Z S A C donor fv pne pte pd = callFractional fl solve Z S A C donor fv' pne' pte' pd' := by
+  simp only [callFractional, hn, ht, hd]
+
+theorem call_density_representation_independent (fl : Flags) (solve : Solver α) (Z : ℕ) (S A C : α → α → ℕ → α)
+    (donor : Bool) (fv fv' : FreeVar α) (pe pe' pne pne' pte pte' : Profile α) (pd pd' : Option (Profile α))
+    (he : toArray fv pe = toArray fv' pe') (hn : toArray fv pne = toArray fv' pne') (ht : toArray fv pte = toArray fv' pte')
+    (hd : assignDonor fv pne pd = assignDonor fv' pne' pd') :
+    callFromDensity fl solve Z S A C donor fv pe pne pte pd
+      = callFromDensity fl solve Z S A C donor fv' pe' pne' pte' pd' := by
+  simp only [callFromDensity, he, hn, ht, hd]
+
+/-- scalars ≡ one-element arrays, donor density scalar / one-element array / absent-with-zero -/
+theorem call_scalar_eq_one_point_array (fl : Flags) (solve : Solver α) (Z : ℕ) (S A C : α → α → ℕ → α) (donor : Bool)
+    (fv fv' : FreeVar α) (n t : α) (d : Option α) :
+    callFractional fl solve Z S A C donor fv (.scalar n) (.scalar t) (d.map .scalar)
+      = callFractional fl solve Z S A C donor fv' (.arr1 [n]) (.arr1 [t]) (d.map fun v => .arr1 [v]) := by
+  apply call_representation_independent <;> cases d <;> rfl
+
+/-- … and the scalar call is the point-level entry point (with an absent donor density read as 0) -/
+theorem call_scalar_is_point (fl : Flags) (solve : Solver α) (Z : ℕ) (S A C : α → α → ℕ → α) (donor : Bool)
+    (fv : FreeVar α) (n t : α) (d : Option α) :
+    callFractional fl solve Z S A C donor fv (.scalar n) (.scalar t) (d.map .scalar)
+      = some ([1], [n], [t], [entryFractional fl solve Z (S n t) (A n t) (C n t) donor n (d.getD 0)]) := by
+  cases d <;> rfl
+
+/-- `Function1D` inputs with a free variable ≡ the arrays of their samples (any of the three parameters; donor density
+absent, a function or an array) -/
+theorem call_fn1_eq_sampled (fl : Flags) (solve : Solver α) (Z : ℕ) (S A C : α → α → ℕ → α) (donor : Bool)
+    (fv' : FreeVar α) (xs : List α) (f g : α → α) (h : Option (α → α)) :
+    callFractional fl solve Z S A C donor (.one xs) (.fn1 f) (.fn1 g) (h.map .fn1)
+      = callFractional fl solve Z S A C donor fv' (.arr1 (xs.map f)) (.arr1 (xs.map g))
+          (h.map fun k => .arr1 (xs.map k)) := by
+  apply call_representation_independent <;> cases h <;> simp [toArray, assignDonor]
+
+/-- `Function2D` inputs with a pair of coordinate arrays ≡ the 2-D arrays of their samples (x outer, C order) -/
+theorem call_fn2_eq_sampled (fl : Flags) (solve : Solver α) (Z : ℕ) (S A C : α → α → ℕ → α) (donor : Bool)
+    (fv' : FreeVar α) (xs ys : List α) (hx : xs ≠ []) (f g : α → α → α) (h : Option (α → α → α)) :
+    callFractional fl solve Z S A C donor (.two xs ys) (.fn2 f) (.fn2 g) (h.map .fn2)
+      = callFractional fl solve Z S A C donor fv' (.arr2 (xs.map fun x => ys.map fun y => f x y))
+          (.arr2 (xs.map fun x => ys.map fun y => g x y)) (h.map fun k => .arr2 (xs.map fun x => ys.map fun y => k x y)) := by
+  cases xs with
+  | nil => exact absurd rfl hx
+  | cons x xs => apply call_representation_independent <;> cases h <;> simp [toArray, assignDonor]
+
+/-- an absent donor density ≡ an explicit array of zeros shaped like `n_e` -/
+theorem call_no_donor_density_eq_zeros (fl : Flags) (solve : Solver α) (Z : ℕ) (S A C : α → α → ℕ → α) (donor : Bool)
+    (fv : FreeVar α) (ne : List α) (pte : Profile α) :
+    callFractional fl solve Z S A C donor fv (.arr1 ne) pte none
+      = callFractional fl solve Z S A C donor fv (.arr1 ne) pte (some (.arr1 (ne.map fun _ => 0))) := by
+  apply call_representation_independent <;> simp [toArray, assignDonor]
+
+/-- **call_rejects_shape_mismatch**: 1-D profiles of different lengths are rejected (the `ValueError` of line 98), whatever
+the donor density; in particular a scalar donor density with longer profiles -/
+theorem call_rejects_shape_mismatch (fl : Flags) (solve : Solver α) (Z : ℕ) (S A C : α → α → ℕ → α) (donor : Bool)
+    (fv : FreeVar α) (ne te : List α) (pd : Option (Profile α)) (h : te.length ≠ ne.length) :
+    callFractional fl solve Z S A C donor fv (.arr1 ne) (.arr1 te) pd = none := by
+  have : ([te.length] == [ne.length]) = false := by simpa using h
+  simp [callFractional, toArrays, toArray, this]
+
+theorem call_rejects_scalar_donor_with_profiles (fl : Flags) (solve : Solver α) (Z : ℕ) (S A C : α → α → ℕ → α)
+    (donor : Bool) (fv : FreeVar α) (ne te : List α) (d : α) (h : ne.length ≠ 1) :
+    callFractional fl solve Z S A C donor fv (.arr1 ne) (.arr1 te) (some (.scalar d)) = none := by
+  have : ([1] == [ne.length]) = false := by simpa using fun h' => h h'.symm
+  simp [callFractional, toArrays, toArray, assignDonor, this]
+
+/-- interpolating functions without a matching free variable are rejected -/
+theorem call_rejects_function_without_free_variable (fl : Flags) (solve : Solver α) (Z : ℕ) (S A C : α → α → ℕ → α)
+    (donor : Bool) (f : α → α) (g : α → α → α) (pte : Profile α) (pd : Option (Profile α)) (xs ys : List α) :
+    callFractional fl solve Z S A C donor .none (.fn1 f) pte pd = none ∧
+    callFractional fl solve Z S A C donor .none (.fn2 g) pte pd = none ∧
+    callFractional fl solve Z S A C donor (.two xs ys) (.fn1 f) pte pd = none ∧
+    callFractional fl solve Z S A C donor (.one xs) (.fn2 g) pte pd = none := by
+  simp [callFractional, toArrays, toArray]
+
+/-- **call_accepted_iff**: the call returns iff the three normalised parameters exist and have one common shape; the
+result is then the loop over their data -/
+theorem call_accepted_iff (fl : Flags) (solve : Solver α) (Z : ℕ) (S A C : α → α → ℕ → α) (donor : Bool)
+    (fv : FreeVar α) (pne pte : Profile α) (pd : Option (Profile α)) (r : List ℕ × List α × List α × List (ℕ → α)) :
+    callFractional fl solve Z S A C donor fv pne pte pd = some r ↔
+      ∃ a b c : Arr α, toArray fv pne = some a ∧ toArray fv pte = some b ∧ assignDonor fv pne pd = some c ∧
+        b.shape = a.shape ∧ c.shape = a.shape ∧
+        r = (a.shape, a.data, b.data, profileFractional fl solve Z S A C donor a.data b.data c.data) := by
+  constructor
+  · intro h
+    unfold callFractional at h
+    split at h
+    next sh ne te nD heq =>
+      rw [toArrays_eq_some_iff] at heq
+      obtain ⟨a, rest, hps, ha, hrest, hds⟩ := heq
+      match rest, hps, hrest, hds with
+      | [b, c], hps, hrest, hds =>
+        simp only [List.map_cons, List.map_nil, List.cons.injEq, and_true] at hps hds
+        obtain ⟨h1, h2, h3⟩ := hps
+        obtain ⟨rfl, rfl, rfl⟩ := hds
+        refine ⟨a, b, c, h1, h2, h3, ?_, ?_, ?_⟩
+        · rw [hrest b (by simp), ha]
+        · rw [hrest c (by simp), ha]
+        · simp only [Option.some.injEq] at h
+          rw [← h, ha]
+    next => exact absurd h (by simp)
+  · rintro ⟨a, b, c, h1, h2, h3, hb, hc, rfl⟩
+    have hb' : (b.shape == a.shape) = true := by simp [hb]
+    have hc' : (c.shape == a.shape) = true := by simp [hc]
+    simp [callFractional, toArrays, h1, h2, h3, hb', hc']
+
+/-- **call_fractions_hold_at_every_point**: for every accepted call — whatever the representation of the inputs — the result
+at every flat index `k` is in [0,1], sums to one and satisfies the neighbour balance with the rates at the normalised
+`(n_e, T_e)` of that index.  (Lift of `fractions_*`/`neighbour_balance` to the public array-level entry point.) -/
+theorem call_fractions_hold_at_every_point (fl : Flags) (solve : Solver α) (hs : SolverSpec solve) (Z : ℕ) (hZ : 1 ≤ Z)
+    (S A C : α → α → ℕ → α) (donor : Bool) (fv : FreeVar α) (pne pte : Profile α) (pd : Option (Profile α))
+    (sh : List ℕ) (ne te : List α) (res : List (ℕ → α))
+    (hcall : callFractional fl solve Z S A C donor fv pne pte pd = some (sh, ne, te, res))
+    (k : ℕ) (n t d : α) (c : Arr α) (hc : assignDonor fv pne pd = some c)
+    (hn : ne[k]? = some n) (ht : te[k]? = some t) (hd : c.data[k]? = some d)
+    (hpos : PosRates Z (S n t) (A n t) (specTcx donor (C n t)) n d) :
+    ∃ f, res[k]? = some f ∧ (∀ z, z ≤ Z → 0 ≤ f z ∧ f z ≤ 1) ∧ sumTo f (Z + 1) = 1 ∧
+      ∀ z, z < Z → f z * S n t z = f (z + 1) * (A n t (z + 1) + if donor then d / n * C n t (z + 1) else 0) := by
+  rw [call_accepted_iff] at hcall
+  obtain ⟨a, b, c', h1, h2, h3, -, -, hr⟩ := hcall
+  rw [hc] at h3
+  cases h3
+  simp only [Prod.mk.injEq] at hr
+  obtain ⟨-, rfl, rfl, rfl⟩ := hr
+  refine ⟨_, profile_pointwise fl solve Z S A C donor a.data b.data c.data k n t d hn ht hd, ?_, ?_, ?_⟩
+  · exact fun z hz => fractions_in_unit_interval fl solve hs hZ hpos z hz
+  · exact fractions_sum_one fl solve hs hZ hpos
+  · exact fun z hz => neighbour_balance fl solve hs hZ hpos z hz
+
+/-- non-vacuity: a `Function1D` call on two knots is accepted, and a mismatching one is rejected -/
+example : (callFractional ⟨true, true, true⟩ bdSolve 1 (fun _ _ _ => (1 : ℚ)) (fun _ _ _ => 1) (fun _ _ _ => 1) false
+    (.one [1, 2]) (.fn1 fun x => x) (.arr1 [3, 4]) none).map (fun r => (r.1, r.2.1, r.2.2.1, r.2.2.2.map fun f => [f 0, f 1]))
+    = some ([2], [1, 2], [3, 4], [[1/2, 1/2], [1/2, 1/2]]) := by
+  decide +kernel
+
+example : (callFractional ⟨true, true, true⟩ bdSolve 1 (fun _ _ _ => (1 : ℚ)) (fun _ _ _ => 1) (fun _ _ _ => 1) false
+    (.one [1, 2]) (.fn1 fun x => x) (.arr1 [3, 4, 5]) none).isNone = true := by
+  decide +kernel
+
 end Cherab.Props.C09
